@@ -173,13 +173,13 @@ def replay(chk, behs, rng, fire_every):
                             chk.violation("C17.FireRaised", {**k, "mode": mode}, {"beh": b, "exc": o2[1]})
                         elif abs(o2[1] - float(want)) > 1e-8 * float(want):
                             chk.violation("C17.LaunchVelocity", {**k, "mode": mode}, {"beh": b, "got": o2[1], "want": float(want)})
-        epilogue(chk, b, ammo, T_, VU, vu, key0, sig)
+        epilogue(chk, b, ammo, T_, VU, vu, key0, sig, every=1 if bi % 3 == 0 else 2, start=bi)
 
 
-def epilogue(chk, b, ammo, T_, VU, vu, key0, sig):
+def epilogue(chk, b, ammo, T_, VU, vu, key0, sig, every=1, start=0):
     """after the history: switched on, the ammunition reports the spec's final line at every temperature"""
     ammo.use_powder_sensitivity = True
-    for T, res in b.get("final", []):
+    for T, res in sorted(b.get("final", []))[start % every:: every]:
         want = Fraction(res[0] * res[1], res[2]) * UA.convert("MPS", vu, 1)
         o = impl.outcome(lambda: ammo.get_velocity_for_temp(T_(T)) >> VU)
         chk.count(1)
